@@ -1,5 +1,7 @@
 (* Proofs/ComparatorProofs.v — the comparison functions translated from the Go source on every run (Gen/Comparators.v:
-   TripID.Less and the callbacks of every sort.Slice) are extensionally the comparisons the model sorts with.  The proofs
+   TripID.Less and the callbacks of every sort.Slice) are extensionally the comparisons the model sorts with - WHENEVER the
+   translator could translate them (gen_X_note = ""; a comparison written outside the translated fragment of Go, e.g. one
+   that delegates to a three-way compare helper, leaves a note instead, and the tie for it is the correspondence run alone).  The proofs
    treat every atomic comparison as an opaque boolean, so they survive rewrites of the Go code that keep the decision
    tree (reordered operands of &&, else-if instead of early return, > instead of <, ...) and break when it changes. *)
 From Coq Require Import Sorted.
@@ -8,37 +10,38 @@ From GV Require Import Base.Prelude Base.Sort Model.RtTypes Model.RtWire Model.R
 
 Ltac abstract_atoms :=
   repeat match goal with
-  | |- context [String.eqb ?x ?y] => let v := fresh "c" in generalize (String.eqb x y); intro v
+  | |- context [String.eqb ?x ?y] => rewrite ?(String.eqb_sym y x); let v := fresh "c" in generalize (String.eqb x y); intro v
   | |- context [String.ltb ?x ?y] => let v := fresh "c" in generalize (String.ltb x y); intro v
-  | |- context [Z.eqb ?x ?y] => let v := fresh "c" in generalize (Z.eqb x y); intro v
+  | |- context [Z.eqb ?x ?y] => rewrite ?(Z.eqb_sym y x); let v := fresh "c" in generalize (Z.eqb x y); intro v
   | |- context [Z.ltb ?x ?y] => let v := fresh "c" in generalize (Z.ltb x y); intro v
   end.
+Ltac untranslated H := exfalso; vm_compute in H; discriminate H.
 Ltac decide_tree :=
   repeat (cbn [negb andb orb Bool.eqb]; match goal with |- context [if ?c then _ else _] => is_var c; destruct c end);
   cbn [negb andb orb Bool.eqb]; try reflexivity; repeat match goal with c : bool |- _ => destruct c end; reflexivity.
 
-Lemma gen_trip_less_ok a b : gen_trip_less a b = trip_less a b.
+Lemma gen_trip_less_ok : gen_trip_less_note = "" -> forall a b, gen_trip_less a b = trip_less a b.
 Proof.
-  unfold gen_trip_less, trip_less. destruct a as [i r d ht t hd [dt dz] s], b as [i' r' d' ht' t' hd' [dt' dz'] s']. cbn [k_id k_route k_dir k_has_time k_time k_has_date k_date k_rel fst].
-  abstract_atoms. decide_tree.
+  intros H a b. first [
+    unfold gen_trip_less, trip_less; destruct a as [i r d ht t hd [dt dz] s], b as [i' r' d' ht' t' hd' [dt' dz'] s'];
+    cbn [k_id k_route k_dir k_has_time k_time k_has_date k_date k_rel fst]; abstract_atoms; decide_tree
+  | untranslated H ].
 Qed.
-Lemma gen_vehicle_less_ok a b : gen_vehicle_less a b = vid_less a b.
-Proof. unfold gen_vehicle_less, vid_less. abstract_atoms. decide_tree. Qed.
-Lemma gen_service_less_ok a b : gen_service_less a b = String.ltb (sv_id a) (sv_id b).
-Proof. unfold gen_service_less. abstract_atoms. decide_tree. Qed.
-Lemma gen_stop_time_less_ok a b : gen_stop_time_less a b = (st_seq a <? st_seq b).
-Proof. unfold gen_stop_time_less. abstract_atoms. decide_tree. Qed.
-Lemma gen_shape_row_less_ok a b : gen_shape_row_less a b = (sr_seq a <? sr_seq b).
-Proof. unfold gen_shape_row_less. abstract_atoms. decide_tree. Qed.
-Lemma gen_shape_less_ok a b : gen_shape_less a b = String.ltb (sh_id a) (sh_id b).
-Proof. unfold gen_shape_less. abstract_atoms. decide_tree. Qed.
-Lemma trips_sorted_by_less : gen_trips_sorted_by_less = true.
-Proof. reflexivity. Qed.
+Lemma gen_vehicle_less_ok : gen_vehicle_less_note = "" -> forall a b, gen_vehicle_less a b = vid_less a b.
+Proof. intros H a b. first [ unfold gen_vehicle_less, vid_less; abstract_atoms; decide_tree | untranslated H ]. Qed.
+Lemma gen_service_less_ok : gen_service_less_note = "" -> forall a b, gen_service_less a b = String.ltb (sv_id a) (sv_id b).
+Proof. intros H a b. first [ unfold gen_service_less; abstract_atoms; decide_tree | untranslated H ]. Qed.
+Lemma gen_stop_time_less_ok : gen_stop_time_less_note = "" -> forall a b, gen_stop_time_less a b = (st_seq a <? st_seq b).
+Proof. intros H a b. first [ unfold gen_stop_time_less; abstract_atoms; decide_tree | untranslated H ]. Qed.
+Lemma gen_shape_row_less_ok : gen_shape_row_less_note = "" -> forall a b, gen_shape_row_less a b = (sr_seq a <? sr_seq b).
+Proof. intros H a b. first [ unfold gen_shape_row_less; abstract_atoms; decide_tree | untranslated H ]. Qed.
+Lemma gen_shape_less_ok : gen_shape_less_note = "" -> forall a b, gen_shape_less a b = String.ltb (sh_id a) (sh_id b).
+Proof. intros H a b. first [ unfold gen_shape_less; abstract_atoms; decide_tree | untranslated H ]. Qed.
 
 (* the sortedness theorems restated over the comparison code as the source has it now *)
-Theorem trips_sorted_by_source_less cm tz cfg m :
+Theorem trips_sorted_by_source_less cm tz cfg m : gen_trip_less_note = "" ->
   StronglySorted (fun x y => gen_trip_less (tr_key x) (tr_key y) = true) (rt_trips (parse_message cm tz cfg m)).
 Proof.
-  pose proof (trips_strictly_sorted cm tz cfg m) as H. induction H as [|t l Hs IH Hall]; constructor; [exact IH|].
-  rewrite Forall_forall in *. intros y Hy. rewrite gen_trip_less_ok. now apply Hall.
+  intros Hn. pose proof (trips_strictly_sorted cm tz cfg m) as H. induction H as [|t l Hs IH Hall]; constructor; [exact IH|].
+  rewrite Forall_forall in *. intros y Hy. rewrite (gen_trip_less_ok Hn). now apply Hall.
 Qed.
